@@ -137,7 +137,7 @@ class TaskQueueSys:
             dis.append((f'taskq-{name}-result', exp, obs, ''))
         before = self._implkey()
         o = _observe(q)
-        if self._implkey() != before:
+        if before is not None and self._implkey() != before:
             dis.append(('taskq-query-mutates', before, self._implkey(),
                         'peek/empty/iteration changed the queue'))
         e = {'peek': ref.peek(), 'peek_largest': ref.peek(False),
@@ -150,6 +150,15 @@ class TaskQueueSys:
         return dis
 
     def _implkey(self):
+        # internal layout, used only to refine the state key and to see
+        # whether a query mutated the queue; a refactored queue without these
+        # attributes is still checked through its public behaviour
+        try:
+            return self._implkey_raw()
+        except AttributeError:
+            return None
+
+    def _implkey_raw(self):
         q = self.q
         removed = type(q)._REMOVED
         counts = sorted(e[1] for e in q._queue)
@@ -249,7 +258,7 @@ def main(ctx):
         'renormalised to ranks in the state key']
     if ctx.tier == 'quick':
         histbfs.run(ctx, MODNAME, 'taskq',
-                    {'prios': [0, 1, 2], 'tasks': ['a', 'b', 'c']}, depth=6)
+                    {'prios': [0, 1, 2], 'tasks': ['a', 'b', 'c']}, depth=7)
         histbfs.run(ctx, MODNAME, 'score', {'times': [0.0, 0.5, 1.0]},
                     depth=5)
     else:
